@@ -284,6 +284,9 @@ class Gen:
                     body["args"].append(z)
                     body["decls"].append(self._simple_decl({"base": "integer", "kind": None}, z, intent="in"))
                     p["decls"].append({"d": "interface", "form": "explicit", "bodies": [body], "doc": None})
+                    if "dummy_proc_optional" not in self.excl and ch.bool(1, 2):
+                        # an attribute statement for the dummy procedure
+                        p["decls"].append({"d": "stmt", "kw": "optional", "rest": ch.choice([" :: ", " "]) + a})
                 else:
                     p["decls"].append(self.var_decl(p, "arg", names=[a], arg=True))
         if k == "function":
